@@ -510,13 +510,20 @@ def real_kill_worker(item):
     errs = []
     try:
         args = [_sys.executable, script, kind, out, str(cfg.get("seed", 0)), str(k), _json.dumps(cfg.get("kwargs", {}))]
+        # the two processes get different hash seeds (CPython's default behaviour, made reproducible)
+        env["PYTHONHASHSEED"] = "0"
         p1 = subprocess.run(args, env=env, capture_output=True, text=True, timeout=900)
         if p1.returncode == 0:
             return dict(viol=[], legs=1, finished_early=True)
         if p1.returncode != 137:
             return dict(viol=[], legs=0, harness=f"first leg exited {p1.returncode}: {p1.stderr[-300:]}")
         args[5] = "0"
+        env["PYTHONHASHSEED"] = "1"
         p2 = subprocess.run(args, env=env, capture_output=True, text=True, timeout=900)
+        for line in (p2.stdout or "").splitlines():
+            if line.startswith("MONITOR "):
+                for c_, d_ in _json.loads(line[8:]):
+                    errs.append((f"resumed-process:{c_}", d_))
         if p2.returncode != 0:
             errs.append(("resumed-process-failed", f"exit {p2.returncode}: {p2.stderr[-400:]}"))
         else:
@@ -619,11 +626,13 @@ def run(ctx):
         classes.add(("kill", it[0]["kind"], res["legs"]))
         for v in res["viol"]:
             ctx.violation(*v)
-    if not ctx.quick:
+    if True:
+        # real processes: killed with os._exit at the k-th likelihood call, resumed by a second
+        # interpreter with another hash seed (quick: a few kill points; thorough: a lattice of 40)
         real_items = []
-        for cfg in kcfgs[:2]:
+        for cfg in kcfgs[:2] + ([] if ctx.quick else kcfgs[2:3]):
             n = ncalls[runs.cfg_key(cfg)]
-            for k in range(1, n + 1, max(1, n // 40)):
+            for k in (sorted({max(1, n // 2), max(1, (3 * n) // 4), n}) if ctx.quick else range(1, n + 1, max(1, n // 40))):
                 real_items.append((cfg, k))
         for it, res in ctx.pmap(real_kill_worker, real_items, nproc=12):
             if res.get("harness"):
